@@ -13,7 +13,7 @@ RULE = ("random commit graphs; one or two rewrite operations per script from {re
         "projection of the working logs must be identical before/after. non-trivial = a rewrite op completed with AI lines at stake; "
         "distinct = (profile, op sequence incl. conflict decisions) signatures")
 
-ALL_OPS = ["rebase", "rebase", "cherry", "amend", "squash", "reset", "stash", "switch", "merge", "noop"]
+ALL_OPS = ["rebase", "rebase", "cherry", "amend", "squash", "reset", "stash", "switch", "merge", "noop", "ci"]
 
 
 def do_noop_ops(sc):
@@ -110,13 +110,13 @@ def run_case(case):
         for k in range(rng.choice([1, 1, 2])):
             op = rng.choice(ops_pool)
             where = "op %d %s" % (k, op)
-            if op in ("rebase", "cherry", "squash", "merge"):
+            if op in ("rebase", "cherry", "squash", "merge", "ci"):
                 # clean tree needed
                 sc.commit_all("pre")
                 if op == "rebase" and rng.random() < 0.15:
                     out = sc.op_rebase_delete_recreate()
                 else:
-                    out = {"rebase": sc.op_rebase, "cherry": sc.op_cherry_pick, "squash": sc.op_squash_merge, "merge": sc.op_merge}[op]()
+                    out = {"rebase": sc.op_rebase, "cherry": sc.op_cherry_pick, "squash": sc.op_squash_merge, "merge": sc.op_merge, "ci": sc.op_ci_rewrite}[op]()
             elif op == "noop":
                 if rng.random() < 0.6:
                     sc.do_edit()   # pending AI/human work that must stay exactly as it is
